@@ -30,7 +30,7 @@ func (r *rng) bytes(n int) []byte {
 	}
 	return b
 }
-func (r *rng) pick(xs []int) int { return xs[r.intn(len(xs))] }
+func (r *rng) pick(xs []int) int        { return xs[r.intn(len(xs))] }
 func (r *rng) chance(num, den int) bool { return r.intn(den) < num }
 
 // Read implements io.Reader (deterministic randomness for the code under test).
